@@ -131,6 +131,7 @@ func runC11(c *Ctx) {
 	checkExcerptDataPath(c, "R11.9")
 	checkLoadAllOrRebuild(c, "R11.10")
 	checkMergeResultsDrained(c, "R11.11")
+	checkCommandsCommitWhatTheyStage(c, "R11.12")
 	// what the live identity answers is what is read back from git: a new version never rewrites a committed one in memory (shared with C09)
 	checkCloneDeep(c)
 	{
@@ -509,6 +510,48 @@ func checkEviction(c *Ctx) {
 	if fn == nil {
 		c.Undecided("R11.5", "anchor:SubCache.evictIfNeeded", "cache", "not found")
 		return
+	}
+	// what is compared with the limit is the size of the structure the loop shrinks (the LRU list): entities that
+	// are loaded without being in the LRU (a rebuild, a pull) must not make the loop evict down to nothing
+	{
+		bad, n := "", 0
+		for _, b := range fn.Blocks {
+			if len(b.Instrs) == 0 {
+				continue
+			}
+			iff, ok := b.Instrs[len(b.Instrs)-1].(*ssa.If)
+			if !ok {
+				continue
+			}
+			bo, isBo := iff.Cond.(*ssa.BinOp)
+			if !isBo {
+				continue
+			}
+			var other ssa.Value
+			if hasField(bo.X, "maxLoaded") {
+				other = bo.Y
+			} else if hasField(bo.Y, "maxLoaded") {
+				other = bo.X
+			} else {
+				continue
+			}
+			n++
+			c.Sites++
+			okLen := false
+			for _, o := range origins(other) {
+				if o.Kind == "call" && strings.HasSuffix(o.Name, ".Len") {
+					if cv, isCall := o.Val.(*ssa.Call); isCall {
+						if r := (&Call{Instr: cv}).Recv(); r != nil && strings.Contains(valueKey(r), ".lru") {
+							okLen = true
+						}
+					}
+				}
+			}
+			if !okLen {
+				bad = "the limit is compared at " + w.InstrPos(iff) + " with something else than the length of the LRU list"
+			}
+		}
+		c.Check(n >= 1 && bad == "", "R11.5", "SubCache.evictIfNeeded:limit-on-the-lru-length", w.FnPos(fn), fmt.Sprintf("%d comparisons of lru.Len() with maxLoaded", n), bad+": with more loaded entities than LRU entries the count never reaches the limit, every evictable entry is evicted — including the entity that was just added, whose excerpt is then never written")
 	}
 	c.seeFn(funcName(fn))
 	n := 0
